@@ -14,6 +14,7 @@ SEEDS = [  # (property, index, package dir of the demo)
 SEEDS += [tuple(x) for x in json.load(open('/verif/tools/more_seeds.json'))] if os.path.exists('/verif/tools/more_seeds.json') else []
 ALL = ["C01","C02","C03","C04","C05","C06","C08","C09","C10","C11","C12","C13","C14","C15","C16","C17","C18","C19","C20"]
 only = sys.argv[1:]
+REPO = os.environ.get("REPO", "/repo")
 for ent in SEEDS:
     prop, i, pkg = ent[0], ent[1], ent[2]
     sid = f"{prop}-s{i}"
@@ -25,12 +26,12 @@ for ent in SEEDS:
         for f in ("patch.diff","demo_test.go","notes.md"):
             if os.path.exists(os.path.join(src,f)): shutil.copy(os.path.join(src,f), os.path.join(dst,f))
     patch = os.path.join(dst,"patch.diff")
-    r = subprocess.run(["git","-C","/repo","apply",patch], capture_output=True, text=True)
+    r = subprocess.run(["git","-C",REPO,"apply",patch], capture_output=True, text=True)
     if r.returncode != 0:
         print(sid, "PATCH DOES NOT APPLY", r.stderr[:200]); continue
     detected = {}
     try:
-        out = subprocess.run(["/verif/bin/pprofcheck","-property","all","-no-evidence"], capture_output=True, text=True)
+        out = subprocess.run(["/verif/bin/pprofcheck","-property","all","-no-evidence","-repo",REPO], capture_output=True, text=True)
         for l in out.stdout.splitlines():
             m = re.match(r"\s*(VIOLATION|UNDECIDED) ((C\d\d)-R\d+|core)", l)
             if not m: continue
@@ -42,7 +43,7 @@ for ent in SEEDS:
             if m and m.group(1) not in detected:
                 detected[m.group(1)] = {"rules": [], "first_report": l}
     finally:
-        subprocess.run(["git","-C","/repo","checkout","--","."])
+        subprocess.run(["git","-C",REPO,"checkout","--","."])
     notes = open(os.path.join(dst,"notes.md")).read() if os.path.exists(os.path.join(dst,"notes.md")) else ""
     sn = json.load(open("/verif/tools/seed_notes.json")).get(sid, {})
     meta = {
